@@ -32,6 +32,7 @@ func checkC18(c *Ctx) {
 		"PrivateKey": {models.SececPkg + ".newPrivateKeyFromScalar"},
 		"PublicKey":  {models.SececPkg + ".newPublicKeyFromPoint"},
 	})
+	c12ASN1PublicKey(c, prog)
 	c13Import(c, prog)
 	c13Invariant(c, prog, "C18-5")
 	c18KeyMethods(c, prog, "C18-5")
